@@ -11,7 +11,9 @@ DECIDES = ('(a) packet-end discipline: every non-initial state of USBDataPacketD
            'position - 2; (c) USBSetupDecoder raises packet.received only in the state entered by SETUP-PID & new_token, '
            'under data_handler.new_packet and length == 8; (d) little-endian field mapping of the eight bytes; '
            '(e) every ack site is guarded by timer.tx_allowed or speed == HIGH and every path out of the waiting state '
-           'raises ack exactly once; the decoder returns to its initial state on any new token. ')
+           'raises ack exactly once; while waiting for the SETUP data the decoder returns to its initial state on any new '
+           'non-SETUP token and on a CRC-valid data packet that is not 8 bytes long, and keeps waiting (for the data of the new '
+           'transaction) on a new SETUP token -- so a retry after a corrupted data packet is not missed. ')
 NOT_DECIDED = 'host-model histories (which packets follow which); endpoint number of the SETUP token (not checked by the decoder).'
 
 
